@@ -3,9 +3,22 @@ property oracle (gen/c02.py:oracle, an independent flat-stream specification) ev
 implementation's outputs."""
 import hashlib
 import json
+import os
+import re
 
 import ltv
 from gen import c02 as G
+
+
+def canon_model(line):
+    """the model prints the bytes HashChunk hands to SHA-1 ('hashin=<hex>'); SHA-1 itself is an external
+    function (hashlib here, OpenSSL in the library): compare digests"""
+    if "hashin=" not in line:
+        return line
+    def h(m):
+        b = bytes.fromhex(m.group(1)) if m.group(1) != "-" else b""
+        return "hash=" + hashlib.sha1(b).hexdigest()
+    return re.sub(r"hashin=([0-9a-f]+|-)", h, line)
 
 
 def run(rep, tier, seed, replay):
@@ -26,7 +39,7 @@ def run(rep, tier, seed, replay):
         stats = {"replay": 1}
     else:
         cases, stats = G.gen(seed, tier)
-    mo = ltv.run_sharded(model, cases)
+    mo = [canon_model(l) for l in ltv.run_sharded(model, cases, env={"LTV_PAGE": str(os.sysconf("SC_PAGESIZE"))})]
     io = ltv.run_sharded(impl, cases)
     nontrivial = set()
     mism = 0
